@@ -241,3 +241,160 @@ def plan_C14(tier, seed):
                    "distinct_nontrivial": q(tier, 5_000, 100_000)},
         "assumptions": ["red-zone tools and Miri do not see an access that stays inside the reader's own Vec but outside the valid window; that case is covered only by the behavioural (content) oracle"],
     }
+
+
+PARSER_FLOORS = {"parser:cnf": 100, "parser:wcnf": 100, "parser:gcnf": 100, "parser:aag": 100, "parser:aig": 100,
+                 "parser:btor2": 100}
+
+
+def plan_C01(tier, seed):
+    n = q(tier, 160_000, 8_000_000)
+    jobs = [
+        Job("diff-chk", "chk", "c01", n, {"max_size": 3000}),
+        Job("diff-rel", "rel", "c01", n, {"max_size": 3000}),
+    ]
+    if tier == "thorough":
+        jobs.append(Job("diff-miri", "miri-san", "c01", 224, {"max_size": 6}, nshards=16, crash_is_violation=True, wall_limit=3000))
+    fl = dict(PARSER_FLOORS)
+    fl.update({"parser:log": 100, "pairs": q(tier, 3_000_000, 150_000_000), "nontrivial_pairs": q(tier, 1_000_000, 50_000_000),
+               "ref_accepted": 10_000, "ref_syntax_error": 10_000, "interrupted_reads": 100_000,
+               "distinct_nontrivial": q(tier, 1_000_000, 10_000_000)})
+    return {
+        "level": "exploration",
+        "rule": "per input (grammar-generated with free layout / mutated / arbitrary / hostile catalogue / repository test "
+                "literals; all seven parsers; all literal types; both settings of ignore_header / ignore_unknown_lines; AIGER "
+                "through parse() and through the section readers): the trace under one-shot delivery with the default chunk "
+                "size is compared with the trace under 1-byte reads with chunk size 1, five random (schedule, chunk size or "
+                "constructor) combinations - schedules fixed-k, two-part split, random sizes with and without Interrupted; "
+                "chunk sizes 1,2,3,7,8,9,16,17,64,1024,16384; constructors new/from_read/from_boxed_dyn_read/from_buf_reader "
+                "with a prefilled BufReader - and, for a third of the inputs up to 256 bytes, two-part splits at EVERY offset. "
+                "Compared: every returned item (canonical rendering) and End | Syntax(line,column) | Io; message text is "
+                "counted but not judged. A pair (input, schedule) is non-trivial if the schedule made >= 2 successful reads, a "
+                "read boundary fell strictly inside a token and the run returned an item or a located error; distinct by hash "
+                "of (parser, type, config, input, schedule, seed, constructor).",
+        "jobs": jobs, "primary_jobs": ["diff-chk"], "eval_counters": ["pairs"], "floors": fl,
+        "assumptions": ["differential oracle: a defect that is identical under all schedules is not visible here (C06/C07/C08 are for that)"],
+    }
+
+
+def plan_C04(tier, seed):
+    n = q(tier, 24_000, 1_200_000)
+    jobs = [
+        Job("faults-chk", "chk", "c04", n, {"max_len": 2048}),
+        Job("faults-rel", "rel", "c04", n, {"max_len": 2048}),
+    ]
+    fl = dict(PARSER_FLOORS)
+    fl.update({"parser:log": 100, "fault_runs": q(tier, 5_000_000, 250_000_000), "final_io": 1_000_000,
+               "final_fault_free_syntax_error_before_fault": 100_000, "accepted_ending_in_comment": 200,
+               "accepted_ending_in_node_comment": 100, "accepted_without_final_newline": 500,
+               "distinct_nontrivial": q(tier, 1_000_000, 4_000_000)})
+    return {
+        "level": "fault_enumeration",
+        "rule": "for every input (<= 2 KiB; generated documents ending in every possible way - with/without final newline, in a "
+                "comment, in the AIGER comment section, in a BTOR2 comment or symbol - plus mutated, arbitrary, hostile and "
+                "repository-test inputs; all seven parsers, AIGER through both APIs) EVERY fault offset k in 0..=len is run "
+                "twice: the source delivers the first k bytes (1-byte reads with chunk 1; and one-shot / random+Interrupted / "
+                "fixed-k with another chunk size) and then fails with a non-Interrupted error forever. Oracle: final result "
+                "never End; it is Io, or the fault-free run's Syntax(line,col) provided that run (1-byte reads, chunk 1, whose "
+                "read-call count is exactly how far the parser looked) looked at <= k bytes; every item handed out equals the "
+                "fault-free item at that index. A fault run is non-trivial if 0 < k < len and the source's error was actually "
+                "returned; distinct by hash of (input, parser config, k, schedule variant), hash set capped at 150000 per "
+                "worker (lower bound of the counter nontrivial_fault_runs).",
+        "jobs": jobs, "primary_jobs": ["faults-chk"], "eval_counters": ["fault_runs"], "floors": fl,
+        "exhaustive": False,
+        "assumptions": ["exhaustive in the fault offset per input, sampled over inputs and delivery schedules"],
+    }
+
+
+def plan_C05(tier, seed):
+    n = q(tier, 1_600_000, 60_000_000)
+    jobs = [
+        Job("robust-chk", "chk", "c05", n, {"max_size": 3000}, cpu_limit=CPU_LIMIT["c05"], crash_is_violation=True),
+        Job("robust-rel", "rel", "c05", n, {"max_size": 3000}, cpu_limit=CPU_LIMIT["c05"], crash_is_violation=True),
+    ]
+    if tier == "thorough":
+        jobs.append(Job("robust-asan", "asan", "c05", 4_000_000, {"max_size": 1000}, cpu_limit=60, crash_is_violation=True))
+    fl = dict(PARSER_FLOORS)
+    fl.update({"parser:log": 100, "inputs": q(tier, 3_000_000, 100_000_000), "accepted": 500_000, "syntax_errors": 500_000,
+               "class:hostile": 100_000, "distinct_keys": 250, "distinct_nontrivial": q(tier, 1_000_000, 10_000_000)})
+    return {
+        "level": "exploration",
+        "rule": "one worker process parses each input (grammar-generated incl. extreme numbers / mutated / arbitrary / hostile "
+                "catalogue with 200-digit numbers, invalid UTF-8, truncated files, over-long varints and headers declaring "
+                "counts up to 2^64-1 / repository test literals; all parsers, literal types and configs; one-shot, 1-byte and "
+                "random schedules) to its final result inside catch_unwind, in the chk build (overflow checks + debug "
+                "assertions) and in the rel build. Violations: panic; process abort / signal / stack overflow (attributed via "
+                "the case journal); more than 20 CPU-seconds on one input (ITIMER_VIRTUAL); more items than input bytes + 1; "
+                "peak live heap above 64*delivered + 2 MiB (counting allocator; any single request above 1 GiB is refused). "
+                "An input is non-trivial if it reaches at least the second token; distinct by hash of (input, parser config). "
+                "distinct_keys = number of distinct syntax-error message templates (numbers and quoted excerpts masked) "
+                "observed across all workers.",
+        "jobs": jobs, "primary_jobs": ["robust-chk"], "eval_counters": ["inputs"], "floors": fl,
+        "assumptions": ["termination is decided up to the CPU budget of 20 s per input (inputs <= 1 MiB, normal cost is microseconds)"],
+    }
+
+
+def plan_C07(tier, seed):
+    n = q(tier, 400_000, 20_000_000)
+    jobs = [
+        Job("layout-chk", "chk", "c07", n, {}),
+        Job("layout-rel", "rel", "c07", n, {}),
+    ]
+    fl = {"renderings": q(tier, 700_000, 30_000_000), "distinct_keys": 200, "distinct_nontrivial": q(tier, 100_000, 5_000_000)}
+    import re
+    # every layout feature must have been drawn
+    for f in ["multi_blank_between_tokens", "tab_separator", "trailing_blanks", "leading_blanks", "blank_line_before_header",
+              "blank_line_between_clauses", "blank_line_inside_clause", "comment_before_header", "comment_between_clauses",
+              "comment_inside_clause", "clause_split_over_lines", "crlf", "no_final_newline", "leading_zeros",
+              "minus_zero_terminator", "comment_with_cr_or_digits", "split_after_weight_or_group", "empty_comment",
+              "blank_only_line_with_spaces", "final_blanks_no_newline"]:
+        fl["feature:dimacs:" + f] = 1000
+    for f in ["comment_lines", "unknown_lines", "values_split_over_lines", "empty_value_line", "status_before_values",
+              "status_between_values", "status_after_values", "crlf", "no_final_newline", "multi_blank_between_values",
+              "leading_zeros", "minus_zero_terminator"]:
+        fl["feature:log:" + f] = 300
+    return {
+        "level": "exploration",
+        "rule": "an abstract value (optional header + clauses with extreme literals / weights / groups, or solver status + "
+                "assignment) is rendered by a layout grammar that chooses independently, at every place the parsers document or "
+                "test as free: 1..4 spaces/tabs between tokens, trailing and leading blanks, blank lines and comment lines "
+                "(before the header, between clauses, inside a split clause, after weight/group), clauses spread over lines, LF "
+                "or CRLF per line, missing final newline, 0..30 leading zeros, '-0' terminator; solver log: value lines split "
+                "anywhere, empty value lines, comment lines and (with ignore_unknown_lines) arbitrary other lines anywhere, "
+                "status before/between/after the value lines. Each rendering is parsed one-shot and under a random small-chunk "
+                "schedule and must return exactly the abstract value and a clean end; all five literal types, with and without "
+                "header. Non-trivial = at least 3 different layout features in one rendering; distinct by hash of the rendered "
+                "bytes and parser config. distinct_keys = number of distinct pairs of features that co-occurred (interaction "
+                "coverage).",
+        "jobs": jobs, "primary_jobs": ["layout-chk"], "eval_counters": ["parses"], "floors": fl,
+        "assumptions": ["the layout grammar covers the freedoms documented or tested in flussab-cnf; '{g}' is always followed by at least one blank"],
+    }
+
+
+def plan_C09(tier, seed):
+    n = q(tier, 300_000, 12_000_000)
+    jobs = [
+        Job("lines-chk", "chk", "c09", n, {}),
+        Job("lines-rel", "rel", "c09", n, {}),
+        Job("reader-discipline", "rel", "c02", q(tier, 16_000, 600_000), {"only_discipline": 1, "max_ops": 400,
+                                                                           "max_stream": 1 << 18}),
+    ]
+    fl = dict(PARSER_FLOORS)
+    fl.update({"oracle1_checks": q(tier, 2_000_000, 100_000_000), "oracle2_checks": q(tier, 500_000, 20_000_000),
+               "docs_with_line_longer_than_chunk": 10_000, "refills": 1_000_000,
+               "distinct_nontrivial": q(tier, 150_000, 3_000_000)})
+    return {
+        "level": "exploration",
+        "rule": "documents of every streaming parser (cnf, wcnf, gcnf, aag and aig section readers, btor2; mostly well-formed "
+                "generated documents with comments and blank lines in all positions, CRLF, lines longer than the chunk size; "
+                "some mutated/arbitrary ones) are delivered by a source that returns at most one line (one binary and-gate) "
+                "per read(), with chunk sizes 16/64/16384; the source's delivered-byte counter is sampled at the moment each "
+                "item (header, clause, section entry, symbol, BTOR2 line) is returned. Oracle 1: delivered <= end offset of the "
+                "line completing the item (from the generator's token map). Oracle 2 (no token map): the data before the "
+                "previous line end followed by end of input must not already yield the identical item. Plus the reader-level "
+                "read discipline on random DeferredReader histories (one successful read per refill, none when satisfied, none "
+                "after end/error). A document is non-trivial if >= 2 items were returned over >= 3 lines; distinct by hash of "
+                "(bytes, parser config, chunk).",
+        "jobs": jobs, "primary_jobs": ["lines-chk"], "eval_counters": ["items_observed"], "floors": fl,
+        "assumptions": ["the AIGER comment section is 'the rest of the file' and is not a streamed item"],
+    }
